@@ -9,6 +9,11 @@ Local Open Scope list_scope.
    built-in one overlaid with the profile's *)
 Theorem C15_tie_yaml : sk_get_map_keys = ref_sk_get_map_keys /\ sk_yaml_get = ref_sk_yaml_get.
 Proof. vm_compute. split; reflexivity. Qed.
+Theorem C15_tie_parser_order :
+  parser_expression_key_order = ref_parser_expression_key_order /\ parser_validation_key_order = ref_parser_validation_key_order
+  /\ parser_constraint_key_order = ref_parser_constraint_key_order /\ parser_qualified_key_order = ref_parser_qualified_key_order
+  /\ parser_profile_key_order = ref_parser_profile_key_order /\ parser_level_order = ref_parser_level_order.
+Proof. vm_compute. repeat split; reflexivity. Qed.
 Theorem C15_tie_prefixes : tpl_iri_expander = ref_iri_expander /\ sk_iri_expander_from = ref_sk_iri_expander_from.
 Proof. vm_compute. split; reflexivity. Qed.
 
@@ -82,6 +87,13 @@ Proof. exact respell_parse_expr. Qed.
 Theorem C15 : forall defaults g doc doc', clos_refl_trans ynode (step defaults) doc doc' -> same_verdict defaults g doc doc'.
 Proof. exact rewritings_same_verdict. Qed.
 
+(* the transcription reads a mapping only under the keys the Go parser looks up (the lists regenerated from the source) *)
+Theorem C15_parser_reads_only_these_keys : forall ctx rec,
+  (forall y y', (forall k, In k ref_parser_expression_key_order -> yget k y = yget k y') -> expr_body ctx rec y = expr_body ctx rec y')
+  /\ (forall path c c', (forall k, In k ref_parser_constraint_key_order -> yget k (YMap c) = yget k (YMap c')) ->
+        parse_pc ctx rec (path, YMap c) = parse_pc ctx rec (path, YMap c')).
+Proof. intros ctx rec. split; [apply expr_body_reads_only|apply parse_pc_reads_only]. Qed.
+
 Theorem C15_level_lists : forall g p p' l r,
   p_name p = p_name p' -> NoDup (map v_name (p_defs p)) -> Permutation (p_defs p) (p_defs p') -> Permutation (p_listed p) (p_listed p') ->
   (In r (level_results g p l) <-> In r (level_results g p' l)).
@@ -106,6 +118,8 @@ Proof. vm_compute. repeat split. Qed.
 
 Print Assumptions C15_tie_yaml.
 Print Assumptions C15_tie_prefixes.
+Print Assumptions C15_tie_parser_order.
+Print Assumptions C15_parser_reads_only_these_keys.
 Print Assumptions C15_get_perm.
 Print Assumptions C15_keys_perm.
 Print Assumptions C15_operand_order.
